@@ -32,7 +32,7 @@ print("claimed:", sorted(c), "not applicable:", [x["property_id"] for x in m["no
 
 # never leave an invalid manifest behind
 import subprocess, sys
-r = subprocess.run(["python3-vt", "-c", "import json,jsonschema,sys; jsonschema.validate(json.load(open(sys.argv[1])), json.load(open('/root/.vp/MANIFEST.schema.json')))", os.path.join(ROOT, "MANIFEST.json")], capture_output=True, text=True)
+r = subprocess.run(["python3-vt", "-c", "import json,jsonschema,sys; jsonschema.validate(json.load(open(sys.argv[1])), json.load(open('/root/.vp/MANIFEST.schema.json')))", os.path.join(R, "MANIFEST.json")], capture_output=True, text=True)
 if r.returncode != 0:
     sys.stderr.write("MANIFEST.json does not validate:\n" + r.stderr[-1500:])
     sys.exit(1)
